@@ -39,6 +39,10 @@ CHECKS = {
  "C16": ("exploration", HIST + "; drain guards dropped or leaked (mem::forget) after scheduler-chosen programs; drop ledger",
          "After drain() — consumed fully, partially, not at all, or leaked — and after clear the queue must be empty and the history continues against a fresh model with all oracles exact; the drop ledger must balance except for what a guard forgotten by the harness still owns. Sampling, not proof.",
          "Trusted: the ledger (unique token per value).", "3,4.C16"),
+
+ "C10": ("fault_enumeration", "crash-point enumeration: panic injected at every k-th callback of every class (cmp, hash, eq, clone, predicate, setter, source, loop body) and guard leaks, on seeded states, followed by seeded possibly faulty continuations; worker-process abort classification; drop ledger",
+         "Per (state, operation) every crash point is enumerated; each crashed queue is driven through continuations steered at the damage and dropped. A violation needs a concrete breach: an abort classified as out-of-bounds unchecked access / crash signal / heap corruption, a double drop, or a leak no harness-forgotten guard explains. States, operations and continuations are sampled.",
+         "Trusted: std's debug precondition checks on get_unchecked*, the token ledger. UB that is none of these needs Miri (./check C10 miri, thorough).", "3,4.C10"),
 }
 
 def main():
